@@ -34,6 +34,7 @@ type Object struct {
 	Buf    []Value
 	Cap    int
 	Closed *term.Term
+	Snap    *Snap      // codec token: snapshot carried by this byte object
 	TimerAt *term.Term // timer channel: receiving moves the clock to at least this instant
 	// OIter
 	IterMap ObjID
@@ -354,6 +355,17 @@ func (s *State) learn(c *term.Term, v bool) {
 		s.knownShared = false
 	}
 	s.Known[c] = v
+}
+
+// simp replaces a Boolean term by a constant when the literals known in this state decide it.
+func (s *State) simp(c *term.Term) *term.Term {
+	if c.IsConst() {
+		return c
+	}
+	if v, ok := s.truth(c); ok {
+		return term.BoolC(v)
+	}
+	return c
 }
 
 // truth evaluates a Boolean term under the literals known in this state.
